@@ -340,10 +340,14 @@ nd::harnesses! {
         let words = base as *const usize;
         assert!(unsafe { *words.add(1) } == inst_addr, "instance follows the vtable pointer");
         assert!(unsafe { *words.add(3) } == mark as usize, "the context follows the instance, before the temporary storage");
-        let a = { let r = obj.view(); r as *const _ as *const u8 as usize - base };
-        let e = { let r = obj.edit(); r as *mut _ as *mut u8 as usize - base };
+        let (a, sa) = { let r = obj.view(); (r as *const _ as *const u8 as usize - base, size_of_val(r)) };
+        let (e, se) = { let r = obj.edit(); (r as *mut _ as *mut u8 as usize - base, size_of_val(r)) };
         assert!(a >= 4 * W, "temporary storage follows the context");
         assert!(a < e, "temporary-storage slots in declaration order");
+        // each slot is large enough for the wrapper it holds (which carries a clone of THIS object's context)
+        assert!(sa >= 3 * W && se >= 3 * W, "a wrapped child holds vtable, reference and context");
+        assert!(e - a >= sa, "the slots do not overlap");
+        assert!(size_of_val(&obj) >= e + se, "the last slot lies inside the object");
     }
 
     /// Single-trait object with a visible context: vtable, instance (box), context - in that order.
